@@ -60,12 +60,16 @@
 //! let hash = MurMur64Hash::hash(kmer_value);
 //! ```
 
+#![allow(unexpected_cfgs)]
+
 pub mod archive;
 pub mod collection;
 pub mod hash;
 pub mod stream_naming;
 pub mod types;
 pub mod varint;
+#[cfg(ragc_verif)]
+pub mod verif;
 
 // Re-export commonly used types
 pub use types::{Base, Contig, PackedBlock};
